@@ -34,7 +34,8 @@ type formBinders struct {
 	T *types.Named
 	// per child field: binder fields guarding substitution into it
 	substGuards map[string][]string
-	substNames  map[string]bool     // name fields substituted (unconditionally)
+	substNames  map[string]bool     // name fields substituted
+	nameGuards  map[string][]string // per name field: binder comparisons its substitution depends on
 	freeBound   map[string][]string // per child: fields removed as bound
 	freeNames   map[string]bool     // name fields reported free
 	freeChild   map[string]bool
@@ -48,7 +49,7 @@ func runBinders(p *Program, r *RuleResult) {
 		tcByT[m.T] = m
 	}
 	for _, T := range p.formImplementers() {
-		fb := &formBinders{T: T, substGuards: map[string][]string{}, substNames: map[string]bool{}, freeBound: map[string][]string{}, freeNames: map[string]bool{}, freeChild: map[string]bool{}, typeBinds: map[string]bool{}, typeShadow: map[string]bool{}}
+		fb := &formBinders{T: T, substGuards: map[string][]string{}, substNames: map[string]bool{}, nameGuards: map[string][]string{}, freeBound: map[string][]string{}, freeNames: map[string]bool{}, freeChild: map[string]bool{}, typeBinds: map[string]bool{}, typeShadow: map[string]bool{}}
 		var nameFields, nameSlices, children []string
 		for _, f := range structFields(T) {
 			switch {
@@ -79,6 +80,18 @@ func runBinders(p *Program, r *RuleResult) {
 			if sc := com.StaticCallee(); sc != nil && sc.Name() == "Substitute" && len(com.Args) == 3 && isNameType(com.Args[0].Type()) {
 				if f := fieldOfRecv(com.Args[0]); f != "" {
 					fb.substNames[strings.TrimSuffix(f, "[]")] = true
+					// is the rewriting conditional on the substituted name differing from a binder?
+					for ft := range sview.FactsAt(c.Block()) {
+						ec, ok := ft.v.(*ssa.Call)
+						if !ok || (ft.k != factFalse && ft.k != factTrue) {
+							continue
+						}
+						if sc2 := ec.Common().StaticCallee(); sc2 != nil && sc2.Name() == "Equal" && len(ec.Common().Args) == 2 && origin(ec.Common().Args[1]) == ssa.Value(oldP) {
+							if g := fieldOfRecv(ec.Common().Args[0]); g != "" {
+								fb.nameGuards[strings.TrimSuffix(f, "[]")] = append(fb.nameGuards[strings.TrimSuffix(f, "[]")], g)
+							}
+						}
+					}
 				}
 				continue
 			}
@@ -269,6 +282,9 @@ func runBinders(p *Program, r *RuleResult) {
 			switch {
 			case !fb.substNames[f]:
 				r.add(fn, "name-substituted:"+f, Violated, p.pos(sub.Pos()), "name field "+f+" is not a binder but Substitute does not rewrite it: it keeps referring to the formal name after a channel was received for it")
+			case len(fb.nameGuards[f]) > 0:
+				sort.Strings(fb.nameGuards[f])
+				r.add(fn, "name-substituted:"+f, Violated, p.pos(sub.Pos()), fmt.Sprintf("name field %s is rewritten only depending on whether the substituted name equals %v, but %s is not in the scope of those binders (it names the channel the form acts on): when the form re-binds the identifier of that channel, the channel itself is never replaced by the received / actual channel", f, fb.nameGuards[f], f))
 			case !fb.freeNames[f]:
 				r.add(fn, "name-substituted:"+f, Violated, p.pos(fnm.Pos()), "name field "+f+" is not reported by FreeNames: duplication, dropping and context splitting miss this channel")
 			default:
